@@ -3,7 +3,7 @@ import ast
 import re
 
 from ..model import AnalysisError, Model, walk_no_nested, norm_stmt
-from .. import flow, chelpers, cgen, evalexpr
+from .. import flow, chelpers, cgen, evalexpr, sem
 from . import C09
 
 EXPLANATION = (
@@ -103,9 +103,16 @@ def check(ctx):
     tl = model.func(UTIL, 'Generator.type_length')
     sr = model.func(OER, 'Integer.set_restricted_to_range')
     gel = g.methods.get('get_encoded_integer_lengths')
-    ok = gel is not None and 'self.type_length(checker.minimum, checker.maximum) // 8' in ast.unparse(gel)
+    def has_expr(f_, want_):
+        if f_ is None:
+            return False
+        v_ = sem.View(f_)
+        cp = flow.param_names(f_)[1] if len(flow.param_names(f_)) > 1 else 'checker'
+        want_ = sem.ctext(sem.parse_expr(want_.replace('checker', cp)))
+        return any(isinstance(n_, ast.expr) and not isinstance(n_, (ast.Name, ast.Constant)) and v_.text(n_) == want_ for n_ in walk_no_nested(f_))
+    ok = has_expr(gel, 'self.type_length(checker.minimum, checker.maximum) // 8')
     fi = g.methods.get('format_integer_inner')
-    ok = ok and fi is not None and 'self.format_type_name(checker.minimum, checker.maximum)[:-2]' in ast.unparse(fi)
+    ok = ok and has_expr(fi, 'self.format_type_name(checker.minimum, checker.maximum)[:-2]')
     ctx.instance('C10.R7', 'OER generator derives the INTEGER wire width from type_length(minimum, maximum)', 'ok' if ok else 'VIOLATION', node=fi or g.node, file=GEN)
     if not ok:
         ctx.violation('C10.R7', GEN, fi or g.node, '%s::_Generator.format_integer_inner' % GEN, 'the INTEGER helper suffix / static length is no longer derived from type_length(checker.minimum, checker.maximum)', stmt='integer width source')
